@@ -118,9 +118,143 @@ pub fn round(ctx: &Ctx, initial: usize, max: usize, k: usize, burst: bool, tr: T
     let _ = server.stop();
 }
 
+/// Random open/close histories. A connection is "in service" once its Echo is answered (a worker
+/// is reading it) and stays so until the client closes it. Model: with fewer than `max` in
+/// service, every accepted connection must get served without anything else happening.
+pub fn history_round(ctx: &Ctx, initial: usize, max: usize, len: usize, seed: u64, round_no: usize) {
+    let svc = standard_service(SvcCfg::default());
+    let mut server = match Server::start(svc, Transport::UnixPath, ServerCfg { initial, max, idle_timeout: 0, with_stop_flag: true }) {
+        Ok(s) => s,
+        Err(e) => {
+            ctx.inconclusive(json!({ "server_start": e }));
+            return;
+        }
+    };
+    // wait for the socket without a probe connection (it would itself be a job)
+    let path = server.address.trim_start_matches("unix:").to_string();
+    let t = Instant::now();
+    while !std::path::Path::new(&path).exists() && t.elapsed() < Duration::from_secs(10) {
+        std::thread::sleep(Duration::from_millis(1));
+    }
+    let mut rng = Rng::lane(seed, 9100 + round_no as u64);
+    let mut conns: Vec<(usize, RawConn, bool)> = Vec::new(); // (id, conn, answered)
+    let mut next_id = 0;
+    let mut hist: Vec<String> = Vec::new();
+    let echo = |id: usize| -> Vec<u8> {
+        let mut b = serde_json::to_vec(&json!({"method": "org.verif.t.Echo", "parameters": {"token": format!("h{}", id)}})).unwrap();
+        b.push(0);
+        b
+    };
+    for _ in 0..len {
+        let open = conns.is_empty() || (conns.len() < max + 2 && rng.chance(3, 5));
+        if open {
+            if let Ok(mut c) = RawConn::connect(&server.address) {
+                let _ = c.write_all(&echo(next_id));
+                hist.push(format!("open{}", next_id));
+                conns.push((next_id, c, false));
+                next_id += 1;
+            }
+        } else {
+            // close one: preferably an answered (in service) one, sometimes a queued one
+            let k = rng.below(conns.len());
+            let (id, c, _) = conns.remove(k);
+            hist.push(format!("close{}", id));
+            drop(c);
+        }
+        // after every step: the `min(open, max)` connections the pool can serve must all be
+        // answered — which ones is up to the queue order, so count them
+        let want = conns.len().min(max);
+        let deadline = Instant::now() + Duration::from_secs(10);
+        loop {
+            for (_, c, answered) in conns.iter_mut() {
+                if !*answered {
+                    if let ReadEv::Frame(_) = c.read_frame(Duration::from_millis(2)) {
+                        *answered = true;
+                    }
+                }
+            }
+            let have = conns.iter().filter(|c| c.2).count();
+            if have >= want || Instant::now() >= deadline {
+                break;
+            }
+        }
+        let have = conns.iter().filter(|c| c.2).count();
+        ctx.count("history_steps_observed", 1);
+        if have > max {
+            ctx.violation("c14:bound-exceeded:history", json!({"engine": "c14-sockets-history", "initial_worker_threads": initial, "max_worker_threads": max, "history": hist, "in_service": have, "seed": seed, "round": round_no}));
+            break;
+        }
+        if have < want {
+            // confirm logically: does closing an in-service connection, or a further one
+            // arriving, make a waiting one start? then it was stranded
+            let poke = RawConn::connect(&server.address);
+            std::thread::sleep(Duration::from_millis(300));
+            let mut after = 0;
+            for (_, c, answered) in conns.iter_mut() {
+                if !*answered {
+                    if let ReadEv::Frame(_) = c.read_frame(Duration::from_millis(50)) {
+                        *answered = true;
+                    }
+                }
+                if *answered {
+                    after += 1;
+                }
+            }
+            drop(poke);
+            let mut how = "a further connection arrived";
+            if after <= have {
+                if let Some(k) = conns.iter().position(|c| c.2) {
+                    let (_, c, _) = conns.remove(k);
+                    drop(c);
+                    std::thread::sleep(Duration::from_millis(500));
+                    after = 0;
+                    for (_, c, answered) in conns.iter_mut() {
+                        if !*answered {
+                            if let ReadEv::Frame(_) = c.read_frame(Duration::from_millis(50)) {
+                                *answered = true;
+                            }
+                        }
+                        if *answered {
+                            after += 1;
+                        }
+                    }
+                    how = "another connection finished";
+                    // one was removed from the answered set
+                    after += 1;
+                }
+            }
+            if after > have {
+                ctx.violation(
+                    "c14:stranded:history",
+                    json!({"engine": "c14-sockets-history", "initial_worker_threads": initial, "max_worker_threads": max, "history": hist, "in_service": have, "expected_in_service": want, "seed": seed, "round": round_no,
+                        "message": format!("only {} of {} accepted connections were served although max={}; a waiting one started only after {}", have, conns.len(), max, how)}),
+                );
+            } else {
+                ctx.inconclusive(json!({"why": "fewer served than expected after 10 s, not explained by a poke or a close", "history": hist}));
+            }
+            break;
+        }
+    }
+    ctx.case(Some(hash_of(&("history", initial, max, &hist))));
+    drop(conns);
+    let _ = server.stop();
+}
+
 pub fn run(ctx: &Ctx) {
-    let rounds = ctx.tier.pick(24usize, 500usize);
     let cfgs: Vec<(usize, usize)> = vec![(1, 1), (1, 2), (1, 4), (2, 2), (2, 4), (3, 4), (3, 1), (2, 1), (1, 3), (3, 3)];
+    let hrounds = ctx.tier.pick(120usize, 4000usize);
+    par(8, |w| {
+        let mut r = w;
+        while r < hrounds {
+            if ctx.violations() >= 3 {
+                break;
+            }
+            let (i, m) = cfgs[r % cfgs.len()];
+            history_round(ctx, i, m, 6 + r % 9, ctx.seed, r);
+            r += 8;
+        }
+    });
+    let rounds = ctx.tier.pick(24usize, 500usize);
     par(6, |w| {
         let mut rng = Rng::lane(ctx.seed, 900 + w as u64);
         let mut r = w;
